@@ -586,8 +586,10 @@ theorem dispatchingAllowed_bookLe (env : Env) (d : Desc) (n : Node) :
       split
       · exact BookLe.refl _ _ _
       · split
-        · exact modItem_bookLe _ _ _ (fun _ => rfl)
         · exact BookLe.refl _ _ _
+        · split
+          · exact modItem_bookLe _ _ _ (fun _ => rfl)
+          · exact BookLe.refl _ _ _
   all_goals exact BookLe.refl _ _ _
 
 theorem dispatching_book (env : Env) (d : Desc) (n : Node) (it : Item) (b : Bundle)
